@@ -286,7 +286,12 @@ where
 
 fn make_abbreviated_namespace(namespace: &str, existing_namespaces: &[Rc<Namespace>]) -> String {
     fn take_three_chars_max(namespace: &str) -> String {
-        namespace.chars().filter(|c| c != &'.').take(3).collect()
+        // the abbreviation becomes an XML prefix, a module name and part of attribute text: identifier characters only
+        namespace
+            .chars()
+            .filter(|c| c.is_ascii_alphanumeric() || *c == '_')
+            .take(3)
+            .collect()
     }
 
     let mut append: Option<u8> = None;
